@@ -213,6 +213,8 @@ type scenarioDescr struct {
 type scenarioResult struct {
 	descr  scenarioDescr
 	coq    string
+	descr2 *scenarioDescr // the second regeneration: over the output of the first, same schema
+	coq2   string
 	direct []gen.DirectFinding
 }
 
@@ -228,7 +230,22 @@ func parseAll(files []string) ([]*fileModel, error) {
 	return out, nil
 }
 
+// FreshRegeneration generates a fresh project and regenerates it with nothing edited in between (C18's clause);
+// it returns the Coq case (before = the fresh resolver files, after = the files after the second run), its
+// description and any direct finding.
+func FreshRegeneration(root string, idx int, seed uint64, layout string) (string, any, []gen.DirectFinding, error) {
+	res, err := runScenarioOpt(root, idx, seed, layout, false, true, true)
+	if err != nil {
+		return "", nil, nil, err
+	}
+	return res.coq, res.descr, res.direct, nil
+}
+
 func runScenario(root string, idx int, seed uint64, layout string, wild, addsOnly bool) (*scenarioResult, error) {
+	return runScenarioOpt(root, idx, seed, layout, wild, addsOnly, false)
+}
+
+func runScenarioOpt(root string, idx int, seed uint64, layout string, wild, addsOnly, fresh bool) (*scenarioResult, error) {
 	r := gen.NewRand(seed)
 	dir := filepath.Join(root, fmt.Sprintf("p%d", idx))
 	defer os.RemoveAll(dir)
@@ -248,8 +265,10 @@ func runScenario(root string, idx int, seed uint64, layout string, wild, addsOnl
 	if out, err := p.generate(); err != nil {
 		return fail("initial-generation-fails", "generating a fresh project failed: "+out)
 	}
-	if _, err := applyUserCode(r, p.resolverFiles(), wild); err != nil {
-		return nil, err
+	if !fresh {
+		if _, err := applyUserCode(r, p.resolverFiles(), wild); err != nil {
+			return nil, err
+		}
 	}
 	before, err := parseAll(p.resolverFiles())
 	if err != nil {
@@ -262,6 +281,9 @@ func runScenario(root string, idx int, seed uint64, layout string, wild, addsOnl
 		}
 	}
 	s1, evs := evolve(r, s0, addsOnly)
+	if fresh {
+		s1, evs = s0, []evolution{{"regenerate-fresh-tree", "nothing edited after the first generation"}}
+	}
 	res.descr.Evolutions = evs
 	if err := p.writeSchema(s1); err != nil {
 		return nil, err
@@ -289,7 +311,15 @@ func runScenario(root string, idx int, seed uint64, layout string, wild, addsOnl
 			return fail("adds-only-regeneration-breaks-build", "the package compiled before an adds-only schema change and does not after: "+out)
 		}
 	}
+	if fresh {
+		for i := range after {
+			if i < len(before) && after[i].Text != before[i].Text {
+				return fail("generation-not-idempotent", "regenerating the freshly generated "+layout+" project changed "+after[i].Name)
+			}
+		}
+	}
 	// repeated regeneration changes nothing more
+	var second []*fileModel
 	for k := 0; k < 2; k++ {
 		if out, err := p.generate(); err != nil && !(strings.Contains(out, "validation failed") && !addsOnly) {
 			return fail("regeneration-fails", "a repeated regeneration failed: "+out)
@@ -309,6 +339,16 @@ func runScenario(root string, idx int, seed uint64, layout string, wild, addsOnl
 			a, b := methodsOf(after[i]), methodsOf(again[i])
 			if a != b {
 				return fail("regeneration-not-idempotent", "regenerating again changed the resolver methods of "+again[i].Name+":\n--- first\n"+a+"\n--- again\n"+b)
+			}
+		}
+		if k == 0 {
+			second = again
+		} else {
+			// from the second run on nothing at all changes (the model's regen_fixpoint)
+			for i := range again {
+				if again[i].Text != second[i].Text {
+					return fail("regeneration-not-idempotent", "the third regeneration changed "+again[i].Name+" although nothing was edited after the second")
+				}
 			}
 		}
 	}
@@ -331,6 +371,21 @@ func runScenario(root string, idx int, seed uint64, layout string, wild, addsOnl
 		rs = append(rs, fmt.Sprintf("(%s, %s)", cstr(f.Name), gen.List(ids)))
 	}
 	res.coq = fmt.Sprintf("{| c_before := %s; c_live := %s; c_after := %s; c_refs := %s |}", gen.List(bs), gen.List(ls), gen.List(as), gen.List(rs))
+	// the second run as a case of its own: before = the output of the first run
+	var ss, rs2 []string
+	for _, f := range second {
+		ss = append(ss, f.coq())
+		var ids []string
+		for _, id := range f.Refs {
+			ids = append(ids, cstr(id))
+		}
+		rs2 = append(rs2, fmt.Sprintf("(%s, %s)", cstr(f.Name), gen.List(ids)))
+	}
+	d2 := res.descr
+	d2.Evolutions = []evolution{{"regenerate-again", "no change of schema or files after the first regeneration"}}
+	d2.Before, d2.After = after, second
+	res.descr2 = &d2
+	res.coq2 = fmt.Sprintf("{| c_before := %s; c_live := %s; c_after := %s; c_refs := %s |}", gen.List(as), gen.List(ls), gen.List(ss), gen.List(rs2))
 	return res, nil
 }
 
@@ -379,7 +434,7 @@ func Run(c *gen.Ctx) error {
 		}(i)
 	}
 	wg.Wait()
-	cf := &gen.CaseFile{Dir: c.OutDir, Prop: "C19", Kind: "regen", Requires: []string{"Base.Prelude", "Model.Rewrite", "Corr.Corr_C19"}, Type: "c19_case",
+	cf := &gen.CaseFile{Dir: c.OutDir, Prop: "C19", Kind: "regen", Requires: []string{"Base.Prelude", "Model.Rewrite", "Model.Regen", "Corr.Corr_C19"}, Type: "c19_case",
 		Checks: []gen.Check{{Label: "corr", Fn: "c19_corr"}, {Label: "mon", Fn: "c19_mon"}, {Label: "montol", Fn: "c19_montol"}, {Label: "monmodel", Fn: "c19_monmodel"}}, Shard: 40}
 	var descr []any
 	kinds := map[string]int{}
@@ -396,6 +451,11 @@ func Run(c *gen.Ctx) error {
 		for _, e := range res.descr.Evolutions {
 			kinds[e.Kind]++
 		}
+		if res.coq2 != "" {
+			cf.Add(res.coq2)
+			descr = append(descr, *res.descr2)
+			kinds["regenerate-again"]++
+		}
 		kinds["layout:"+res.descr.Layout]++
 	}
 	if err := meta.AddCaseFile(cf, descr); err != nil {
@@ -405,7 +465,7 @@ func Run(c *gen.Ctx) error {
 	meta.Evaluations = cf.Len()
 	meta.DistinctNontrivial = cf.Len()
 	meta.Programs = n
-	meta.Rule = "scratch projects generated by gqlgen's generator from /repo's tree; resolver files then edited as a user would (bodies with nested braces, strings and raw strings containing braces and comment markers, closures, comments; doc comments incl. directive-like lines; helper funcs/types/vars/consts/methods, some containing a block-comment end; plain, aliased and blank imports), then 1..3 schema edits (add / remove / rename / move a field between schema files, add / remove a type), regeneration, two more regenerations (must change nothing), both resolver layouts; adds-only scenarios are built with go build before and after."
+	meta.Rule = "scratch projects generated by gqlgen's generator from /repo's tree; resolver files then edited as a user would (bodies with nested braces, strings and raw strings containing braces and comment markers, closures, comments; doc comments incl. directive-like lines; helper funcs/types/vars/consts/methods, some containing a block-comment end; plain, aliased and blank imports), then 1..3 schema edits (add / remove / rename / move a field between schema files, add / remove a type), regeneration, two more regenerations (the second is a case of its own against the model's run over the first run's output; the third must be byte-identical to the second), both resolver layouts; adds-only scenarios are built with go build before and after."
 	if len(descr) > 1 {
 		meta.Samples = append(meta.Samples, descr[0])
 	}
